@@ -64,6 +64,13 @@ func c20Families() []c20Family {
 		{name: "JSON array nesting", build: func(n int) (string, string, string) {
 			return `BEGIN { print "before" } BEGINFILE { print "read" }`, strings.Repeat("[", n) + strings.Repeat("]", n), "before\nread\n"
 		}, lo: 1000, hi: 100000, max: 10050, jsonErr: true},
+		// the same inputs put to use: printed whole and serialised (every depth the decoder accepts works normally)
+		{name: "JSON array nesting, printed and serialised", build: func(n int) (string, string, string) {
+			return `BEGIN { print "before" } BEGINFILE { print $; print json($).length() > 0 }`, strings.Repeat("[", n) + strings.Repeat("]", n), "before\n" + strings.Repeat("[", n) + strings.Repeat("]", n) + "\ntrue\n"
+		}, lo: 1000, hi: 100000, max: 10050, jsonErr: true},
+		{name: "JSON object nesting, printed and serialised", build: func(n int) (string, string, string) {
+			return `BEGIN { print "before" } BEGINFILE { print $; print json($).length() > 0 }`, strings.Repeat(`{"a":`, n) + "1" + strings.Repeat("}", n), "before\n" + strings.Repeat(`{"a": `, n) + "1" + strings.Repeat("}", n) + "\ntrue\n"
+		}, lo: 1000, hi: 100000, max: 10050, jsonErr: true},
 		{name: "JSON object nesting", build: func(n int) (string, string, string) {
 			return `BEGIN { print "before" } BEGINFILE { print "read" }`, strings.Repeat(`{"a":`, n) + "1" + strings.Repeat("}", n), "before\nread\n"
 		}, lo: 1000, hi: 100000, max: 10050, jsonErr: true},
@@ -316,7 +323,7 @@ func init() {
 	nf := len(c20Families())
 	fw.Register(&fw.Prop{
 		ID: "C20",
-		Rule: "one-dimensional sweeps across each limit on the real binary in a child process under ulimit -v: recursion depth for 8 shapes (direct, mutual of two and three, through a match body, an argument, a for-in body, from a pattern rule, from BEGINFILE), array store index directly, through a nested pending path and on an array that already has elements, printf width of both signs, JSON array and object nesting; " +
+		Rule: "one-dimensional sweeps across each limit on the real binary in a child process under ulimit -v: recursion depth for 8 shapes (direct, mutual of two and three, through a match body, an argument, a for-in body, from a pattern rule, from BEGINFILE), array store index directly, through a nested pending path and on an array that already has elements, printf width of both signs, JSON array and object nesting (read only, and printed whole + serialised with json()); " +
 			"the refusal point is found by bisection, must lie in the documented range (a few thousand frames; about a million; exactly 65536; the decoder's limit) and the sweep checks monotonicity: the exact value below it, an ordinary runtime / JSON error with the earlier output kept and a small exit status from it on; " +
 			"plus single cases: index magnitudes 2^k and 2^k +- 1 up to 2^62, 2^63, 2^64, 10^300, reads past the limit, negative and fractional indices, unbounded recursion of four shapes, 20-digit widths, and the things that must still work (a width of a few thousand, a thousand-element array, recursion a thousand deep); states = refusal points found; non-trivial = same",
 		Plan: func(t fw.Tier) int { return nf*8 + 1 },
